@@ -47,10 +47,13 @@ def gen_args(lyr, ishape):
 
 def main():
   rep = vlib.Report(PROP, "proof")
-  from translate import opcountgen
+  from translate import opcountgen, energygen
   gen = opcountgen.emit(vlib.GEN)
-  info = vlib.build_obligations(PROP, gen_files=[gen], extra_files=[os.path.join(vlib.COQ, "theories", "Link", "OpCountLink.v")])
-  errs = rep.obligations(info, "python3 tools/translate/opcountgen.py coq/gen && coqc coq/gen/OpCountGen.v && coqc coq/theories/Link/OpCountLink.v && coqc coq/theories/Properties/C19.v")
+  egen = energygen.emit(vlib.GEN)
+  info = vlib.build_obligations(PROP, gen_files=[gen, egen], extra_files=[os.path.join(vlib.COQ, "theories", "Link", "OpCountLink.v"),
+                                                                         os.path.join(vlib.COQ, "theories", "Link", "EnergyLink.v")])
+  errs = rep.obligations(info, "python3 tools/translate/opcountgen.py coq/gen && python3 tools/translate/energygen.py coq/gen && coqc coq/gen/OpCountGen.v coq/gen/EnergyGen.v "
+                         "&& coqc coq/theories/Link/OpCountLink.v coq/theories/Link/EnergyLink.v && coqc coq/theories/Properties/C19.v")
   for e in errs:
     rep.violation("obligation-" + os.path.basename(e["file"]), "proof obligation no longer checks: " + e["error"][-400:],
                   {"file": e["file"]}, no_input=True)
@@ -212,7 +215,7 @@ def main():
 
   # ---------------- energy report ----------------
   from qkeras.qtools.qenergy import qenergy
-  from qkeras.qtools.quantized_operators import quantizer_factory, multiplier_factory, accumulator_factory
+  from qkeras.qtools.quantized_operators import quantizer_factory, multiplier_factory, accumulator_factory, merge_factory
   from qkeras.qtools.run_qtools import QTools
   from qkeras.qtools.settings import cfg
   import qkeras.quantizers as Q
@@ -237,7 +240,7 @@ def main():
       return ref_sram(total, mss)
     return 0.0
 
-  def check_mem_entries(tag, lname, en, item_get, ishapes, is_in, is_out, wm, am, mss, rw, weighted):
+  def check_mem_entries(tag, lname, en, item_get, ishapes, is_in, is_out, wm, am, mss, rw, weighted, layer=None):
     want_in = sum(ref_mem(int(np.prod(sh[1:])), q_.bits, am, mss, rw, is_in) for sh, q_ in zip(ishapes, item_get("input_quantizer_list")))
     osh = item_get("output_shapes")
     want_out = ref_mem(int(np.prod(osh[1:])), item_get("output_quantizer").bits, am, mss, rw, is_out)
@@ -246,11 +249,66 @@ def main():
       want_par += ref_mem(int(np.prod(item_get("w_shapes"))), item_get("weight_quantizer").bits, wm, mss, rw, False)
       if item_get("bias_quantizer"):
         want_par += ref_mem(int(np.prod(item_get("b_shapes"))), item_get("bias_quantizer").bits, wm, mss, rw, False)
+    elif layer is not None and type(layer).__name__ in ("BatchNormalization", "QBatchNormalization"):
+      # one vector of channel length per statistic that has a quantizer
+      nch = len(layer.get_weights()[0])
+      for k_ in ("gamma_quantizer", "beta_quantizer", "mean_quantizer", "variance_quantizer"):
+        if item_get(k_):
+          want_par += ref_mem(nch, item_get(k_).bits, wm, mss, rw, False)
     for key, want in (("inputs", want_in), ("outputs", want_out), ("parameters", want_par)):
       w2 = float("{0:.2f}".format(want))
       if abs(w2 - en[key]) > 1e-6 * max(1.0, abs(w2)) + 0.011:
         rep.violation(f"{tag}-mem-{key}-{lname}", f"{lname}: energy entry '{key}' = {en[key]} but the documented function of (placement weights={wm}, activations={am}, "
                       f"min_sram_size={mss}, rd_wr_on_io={rw}, input layer={is_in}, output layer={is_out}) gives {w2}", {"options": [wm, am, mss, rw]})
+
+  # ---- op_cost of EVERY layer class against the Coq model QTools/Energy.v (and its regenerated twin coq/gen/EnergyGen.v) ----
+  OPKEYS = ["multiplier", "accumulator", "pool_sum_accumulator", "internal_divide_quantizer", "internal_multiplier"]
+  opc_cases = []
+
+  def qlit(v):
+    f = Fraction(float(v))
+    return f"({f.numerator} # {f.denominator})"
+
+  def opc_case(tag, cls_name, item_get, reported):
+    """collect one (class, count, number of inputs, unit costs of the reported operators) case; units are the float64 values
+    the implementation's own OP table gives for the operator types in the layer map, passed to Coq as exact rationals"""
+    gf, uop, uadd, present = {}, {}, {}, {}
+    for k in OPKEYS:
+      x = item_get(k)
+      present[k] = bool(x)
+      if x is None or not hasattr(x, "output"):
+        continue
+      op = qenergy.get_op_type(x.output)
+      uadd[k] = float(qenergy.OP[op]["add"](x.output.bits))
+      if hasattr(x, "implemented_as") and hasattr(x, "gate_factor"):
+        gf[k] = float(x.gate_factor)
+        uop[k] = float(qenergy.OP[op][x.implemented_as()](x.gate_bits))
+    fun = lambda d_: "(fun k => " + "".join(f'if String.eqb k "{k}" then {qlit(v)} else ' for k, v in d_.items()) + "0)"
+    pres = "(fun k => " + "".join(f'if String.eqb k "{k}" then {vlib.blit(v)} else ' for k, v in present.items()) + "false)"
+    cnt = int(item_get("operation_count"))
+    nin = len(item_get("input_quantizer_list"))
+    args = f'{fun(gf)} {fun(uop)} {fun(uadd)} {pres} "{cls_name}" {vlib.zlit(cnt)} {vlib.zlit(nin)}'
+    opc_cases.append((tag, cls_name, cnt, nin, float(reported), args))
+
+  def judge_opc_cases():
+    if not opc_cases:
+      return
+    hdr = ("From Coq Require Import ZArith QArith String List Bool.\nFrom QV Require Import QTools.Energy.\nFrom QVGen Require EnergyGen.\n"
+           "Import ListNotations.\nOpen Scope string_scope.\n")
+    body = hdr + "".join(f"Eval vm_compute in (let q := Qred (op_cost {a}) in let g := Qred (EnergyGen.gen_opcost {a}) in "
+                         f"[Qnum q; Zpos (Qden q); Qnum g; Zpos (Qden g)]).\n" for *_x, a in opc_cases)
+    outs = vlib.coq_eval(PROP + "_opcost", body)
+    ncls = {}
+    for (tag, cls_name, cnt, nin, reported, _a), o in zip(opc_cases, outs):
+      want = Fraction(o[0], o[1])
+      if (o[0], o[1]) != (o[2], o[3]) and not errs:   # a failed translation is already reported as the broken obligation
+        rep.violation(f"energy-translator-mismatch-{cls_name}", f"{tag}: the regenerated op_cost dispatch gives {Fraction(o[2], o[3])} but the model QTools/Energy.v {want} "
+                      f"for class {cls_name}, count {cnt}, {nin} inputs", {"class": cls_name})
+      if abs(Fraction(reported) - want) > Fraction(51, 10000) + abs(want) / 10 ** 9:
+        rep.violation(f"op-cost-{cls_name}-{tag}", f"{tag}: energy entry op_cost = {reported} of a {cls_name} layer (operation_count {cnt}, {nin} inputs) but the documented function "
+                      f"of the reported operator types, count and number of inputs gives {float(want):.4f}", {"class": cls_name, "count": cnt, "inputs": nin})
+      ncls[cls_name] = ncls.get(cls_name, 0) + 1
+    rep.note(op_cost_entries_vs_model=dict(sorted(ncls.items())))
 
   def mk_layer(cls_name, name, input_shape, weights):
     cls = type(cls_name, (object,), {})
@@ -265,7 +323,9 @@ def main():
     nl = int(rng.integers(1, 5))
     layers, dmap = [], {}
     for li in range(nl):
-      cls_name = str(rng.choice(["QDense", "QConv2D", "QActivation", "Dense", "QDepthwiseConv2D"]))
+      SYN = ["QDense", "QConv2D", "QActivation", "Dense", "QDepthwiseConv2D", "Add", "Multiply", "Subtract", "AveragePooling2D",
+             "GlobalAveragePooling2D", "BatchNormalization", "Flatten"]
+      cls_name = SYN[(mi * 5 + li * 7 + int(rng.integers(0, 2))) % len(SYN)]     # rotation: every class in every run
       wq = qf.make_quantizer(Q.quantized_bits(int(rng.integers(2, 9)), 0, 1))
       iq = qf.make_quantizer(rng.choice([Q.quantized_relu(int(rng.integers(2, 9)), 1), Q.quantized_bits(8, 0, 1), None]))
       oq = qf.make_quantizer(Q.quantized_relu(int(rng.integers(2, 9)), 1))
@@ -278,6 +338,32 @@ def main():
       item = dict(input_quantizer_list=[iq], operation_count=int(rng.integers(0, 5000)), output_shapes=oshape, output_quantizer=oq,
                   multiplier=mult, accumulator=acc, weight_quantizer=wq, w_shapes=kshape,
                   bias_quantizer=(qf.make_quantizer(Q.quantized_bits(8, 0, 1)) if rng.integers(0, 2) else None), b_shapes=(kshape[3],))
+      if cls_name in ("Add", "Multiply", "Subtract"):
+        # n inputs of rank r, n and r varied independently (n - 1 operations per element, whatever the rank)
+        nin = 2 + (mi + li) % 3
+        rank = 2 + (mi // 3 + li) % 3
+        msh = (None,) + tuple(int(rng.integers(2, 6)) for _ in range(rank - 1))
+        iqs = [qf.make_quantizer(Q.quantized_relu(int(rng.integers(2, 9)), 1)) for _ in range(nin)]
+        mq = merge_factory.MergeFactory().make_quantizer([(q_, {}) for q_ in iqs], "Multiply" if cls_name == "Multiply" else "Add")
+        lay = mk_layer(cls_name, f"l{li}", [msh] * nin, [])
+        item = dict(input_quantizer_list=iqs, operation_count=int(np.prod(msh[1:])), output_shapes=msh, output_quantizer=mq.output, multiplier=mq, accumulator=None)
+      elif cls_name in ("AveragePooling2D", "GlobalAveragePooling2D"):
+        fm = mf.make_multiplier(iq, iq)
+        fm.output = iq
+        pacc = af.make_accumulator((int(rng.integers(1, 4)), int(rng.integers(1, 4)), 1, 1), fm, use_bias=False)
+        lay = mk_layer(cls_name, f"l{li}", ishape, [])
+        item = dict(input_quantizer_list=[iq], operation_count=int(rng.integers(0, 5000)), output_shapes=oshape, output_quantizer=pacc.output,
+                    pool_sum_accumulator=pacc, pool_avg_multiplier=None, average_quantizer=None)
+      elif cls_name == "BatchNormalization":
+        gq = [qf.make_quantizer(Q.quantized_bits(int(rng.integers(2, 9)), 0, 1)) if rng.integers(0, 3) else None for _ in range(4)]
+        lay = mk_layer(cls_name, f"l{li}", ishape, [np.zeros(ishape[-1])] * 4)
+        item = dict(input_quantizer_list=[iq], operation_count=int(rng.integers(0, 5000)), output_shapes=ishape, output_quantizer=oq,
+                    gamma_quantizer=gq[0], beta_quantizer=gq[1], mean_quantizer=gq[2], variance_quantizer=gq[3],
+                    internal_divide_quantizer=(mf.make_multiplier(wq, iq) if (mi + li) % 3 else None),
+                    internal_multiplier=(mult if (mi + li) % 2 else None))
+      elif cls_name == "Flatten":
+        lay = mk_layer(cls_name, f"l{li}", ishape, [])
+        item = dict(input_quantizer_list=[iq], operation_count=int(np.prod(ishape[1:])), output_shapes=(None, int(np.prod(ishape[1:]))), output_quantizer=iq)
       layers.append(lay)
       dmap[lay] = item
     model = type("M", (object,), {})()
@@ -300,8 +386,10 @@ def main():
       if min(vals) < 0:
         rep.violation(f"negative-energy-{mi}", f"negative energy entry {en}", {"layer": lay.name})
       entries.append((res[lay.name]["class_name"], vals))
-      check_mem_entries(f"syn{mi}", lay.name, en, lambda k, it=dmap[lay]: it[k], [lay.input_shape], lay is layers[0], lay is layers[-1], wm, am, mss, rw,
-                        res[lay.name]["class_name"] in ("QDense", "QConv2D", "Dense", "QDepthwiseConv2D"))
+      check_mem_entries(f"syn{mi}", lay.name, en, lambda k, it=dmap[lay]: it.get(k), lay.input_shape if isinstance(lay.input_shape, list) else [lay.input_shape],
+                        lay is layers[0], lay is layers[-1], wm, am, mss, rw,
+                        res[lay.name]["class_name"] in ("QDense", "QConv2D", "Dense", "QDepthwiseConv2D"), lay)
+      opc_case(f"syn{mi}-{lay.name}", res[lay.name]["class_name"], lambda k, it=dmap[lay]: it.get(k), en["op_cost"])
       # documented entry functions, recomputed independently in float64
       item = dmap[lay]
       if res[lay.name]["class_name"] in ("QDense", "QConv2D", "Dense", "QDepthwiseConv2D"):
@@ -313,8 +401,8 @@ def main():
         want = float("{0:.2f}".format(item["operation_count"] * (c1 + c2)))
         if abs(want - en["op_cost"]) > 1e-6 * max(1.0, abs(want)):
           rep.violation(f"op-cost-{mi}", f"op_cost {en['op_cost']} is not count*(mult+add) = {want}", {"layer": lay.name})
-      elif en["op_cost"] != 0:
-        rep.violation(f"op-cost-activation-{mi}", f"activation layer has op_cost {en['op_cost']}", {"layer": lay.name})
+      elif res[lay.name]["class_name"] in ("QActivation", "Flatten") and en["op_cost"] != 0:
+        rep.violation(f"op-cost-activation-{mi}", f"activation / reshaping layer has op_cost {en['op_cost']}", {"layer": lay.name})
     total = res["total_cost"]
     # total vs printed entries, and extract_energy_sum, recomputed exactly in Coq
     flat = [v for _, vals in entries for v in vals]
@@ -366,10 +454,46 @@ def main():
   import c18 as C18
   from qkeras.quantizers import get_quantizer
   nreal = 8 if rep.tier == "quick" else 80
+  nbranch = 10 if rep.tier == "quick" else 60
   n_real_layers = 0
-  for mi in range(nreal):
+  n_subtract = 0
+
+  def gen_branch_model(k):
+    """branches joined by a merge layer of 2 or 3 inputs, followed in rotation by (Q)AveragePooling2D / GlobalAveragePooling2D / BatchNormalization"""
+    from tensorflow.keras import Model, Input
+    cin = int(rng.integers(1, 4))
+    hh, ww = int(rng.integers(4, 8)), int(rng.integers(4, 8))
+    inp = Input((hh, ww, cin), name=f"bi{k}")
+    nbr = 2 + (k % 2)
+    merge = ["Add", "Multiply", "Add", "Subtract", "Add"][k % 5]
+    if merge in ("Subtract", "Multiply"):
+      nbr = 2
+    co = int(rng.integers(1, 4))
+    brs = []
+    for b_ in range(nbr):
+      x_ = qkeras.QConv2D(co, int(rng.integers(1, 4)), padding="same", kernel_quantizer="quantized_bits(4,0,1,alpha=1.0)",
+                          bias_quantizer="quantized_bits(4,0,1)", name=f"bc{k}_{b_}")(inp)
+      brs.append(qkeras.QActivation(f"quantized_relu({int(rng.integers(2, 7))},1)", name=f"ba{k}_{b_}")(x_))
+    x_ = getattr(L, merge)(name=f"bm{k}")(brs)
+    tail = ["pool", "gap", "qpool", "bn", "none", "qgap"][k % 6]
+    if tail == "pool":
+      x_ = L.AveragePooling2D((int(rng.integers(1, 3)), int(rng.integers(1, 4))), strides=(int(rng.integers(1, 3)), int(rng.integers(1, 3))),
+                              padding=str(rng.choice(["valid", "same"])), name=f"bp{k}")(x_)
+    elif tail == "qpool":
+      x_ = qkeras.QAveragePooling2D((2, int(rng.integers(1, 3))), average_quantizer="quantized_bits(6,0,1)", name=f"bp{k}")(x_)
+    elif tail == "bn":
+      x_ = L.BatchNormalization(name=f"bb{k}")(x_)
+    if tail == "gap":
+      x_ = L.GlobalAveragePooling2D(name=f"bp{k}")(x_)
+    elif tail == "qgap":
+      x_ = qkeras.QGlobalAveragePooling2D(average_quantizer="quantized_bits(6,0,1)", name=f"bp{k}")(x_)
+    else:
+      x_ = L.Flatten(name=f"bf{k}")(x_)
+    x_ = qkeras.QDense(int(rng.integers(1, 4)), kernel_quantizer="quantized_bits(4,0,1,alpha=1.0)", bias_quantizer="quantized_bits(4,0,1)", name=f"bd{k}")(x_)
+    return Model(inp, x_, name=f"bm{k}"), {"merge": merge, "inputs": nbr, "tail": tail}
+  for mi in range(nreal + nbranch):
     try:
-      m, meta = C18.gen_model(rng, 7000 + mi)
+      m, meta = C18.gen_model(rng, 7000 + mi) if mi < nreal else gen_branch_model(mi - nreal)
       m.set_weights([rng.normal(0, 0.7, size=w.shape).astype(np.float32) for w in m.get_weights()])
       m(tf.constant(rng.normal(0, 1, size=(1,) + tuple(m.input_shape[1:])).astype(np.float32)))   # auto scales get a value
       qt = QTools(m, process="horowitz", source_quantizers=[get_quantizer("quantized_bits(8,2,1)")], is_inference=False, weights_path=None,
@@ -378,7 +502,11 @@ def main():
       mss_, rw_ = int(rng.choice([0, 1000000])), bool(rng.integers(0, 2))
       res = qt.pe(weights_on_memory=wm, activations_on_memory=am, min_sram_size=mss_, rd_wr_on_io=rw_)
     except Exception as e:  # pylint: disable=broad-except
-      rep.violation(f"real-pipeline-raises-{mi}", f"QTools(model).pe() raised {type(e).__name__}: {str(e)[:200]}", {})
+      if mi >= nreal and meta.get("merge") == "Subtract" and isinstance(e, AttributeError) and "'NoneType' object has no attribute 'output'" in str(e):
+        n_subtract += 1
+        rep.finding("C19-merge-factory-has-no-subtract", f"QTools(model) on a model with a Subtract layer raises {type(e).__name__}: {str(e)[:120]}", {"model": meta})
+      else:
+        rep.violation(f"real-pipeline-raises-{mi}", f"QTools(model).pe() raised {type(e).__name__}: {str(e)[:200]}", {"model": str(meta)[:300]})
       continue
     rep.count(("real", m.to_json(), wm, am))
     lmap = qt._layer_map["layer_data_type_map"]  # pylint: disable=protected-access
@@ -413,13 +541,26 @@ def main():
       if min(en["inputs"], en["outputs"], en["parameters"], en["op_cost"]) < 0:
         rep.violation(f"real-negative-energy-{mi}-{l.name}", f"{l.name}: negative energy entry {en}", {})
       getv = (lambda k, it=e: it.get(k)) if isinstance(e, dict) else (lambda k, it=e: getattr(it, k, None))
+      # loop-nest counts of the layers without weights: one operation per element (merge), one per window element (pooling)
+      true_c = None
+      if cn in ("Add", "Multiply", "Subtract"):
+        true_c = int(np.prod(tuple(l.output.shape)[1:]))
+      elif cn in ("AveragePooling2D", "QAveragePooling2D"):
+        true_c = int(np.prod(tuple(l.output.shape)[1:]) * np.prod(l.pool_size))
+      elif cn in ("GlobalAveragePooling2D", "QGlobalAveragePooling2D"):
+        true_c = int(np.prod(tuple(l.input.shape)[1:]))
+      if true_c is not None and int(cnt) != true_c:
+        rep.violation(f"real-op-count-{mi}-{l.name}", f"{cn} {l.name} input {tuple(l.input[0].shape) if isinstance(l.input, list) else tuple(l.input.shape)} output {tuple(l.output.shape)}: "
+                      f"QTools reports operation_count {cnt}, the loop nest has {true_c} operations", {"layer": cn})
+      opc_case(f"real{mi}-{l.name}", cn, getv, en["op_cost"])
       ish = l.input_shape if isinstance(l.input_shape, list) else [l.input_shape]
       check_mem_entries(f"real{mi}", l.name, en, getv, ish, l in qt._layer_map["input_layers"], l in qt._layer_map["output_layers"], wm, am, mss_, rw_,  # pylint: disable=protected-access
-                        cn in ("QDense", "QConv1D", "QConv2D", "QDepthwiseConv2D"))
+                        cn in ("QDense", "QConv1D", "QConv2D", "QDepthwiseConv2D"), l)
       ssum += en["inputs"] + en["outputs"] + en["parameters"] + en["op_cost"]
     if abs(res["total_cost"] - ssum) > 1 + len(m.layers) / 50.0:
       rep.violation(f"real-total-{mi}", f"total_cost {res['total_cost']} but the layer entries sum to {ssum}", {})
-  rep.note(real_pipeline=dict(models=nreal, weighted_layers=n_real_layers))
+  rep.note(real_pipeline=dict(models=nreal, branched_models=nbranch, weighted_layers=n_real_layers, subtract_models_refused=n_subtract))
+  judge_opc_cases()
   rep.assumptions += ["Keras' compute_output_shape is compared with the Coq extent functions on every generated geometry (a Section-free function, proved to "
                       "characterise the admissible window positions)",
                       "energy polynomials / log2 of qenergy are float64 functions: entries are compared with an independent float64 recomputation, "
